@@ -170,6 +170,8 @@ OBJ_SAMPLES = [
     {"type": "object", "properties": {"a": {"type": "string"}}, "n": [1, 2.5, True], "_meta": {"x": 1}, "\u00e9": "\u00e9"},
 ]
 OBJ_SAMPLES.append({"big": list(BIG_INTS), "n": {"deep": [BIG_INTS[0]]}})
+# explicit nulls inside a free-form value, at depth 1-3 (a tool argument threshold: null is data, not an absent member)
+OBJ_SAMPLES.append({"threshold": None, "nested": {"n": None, "deep": {"z": None, "l": [None, {"q": None}]}}, "kept": 0})
 MAX_MODEL_SAMPLES = 8
 _ALIAS_PROBE: Dict[str, Any] = {}
 
